@@ -273,6 +273,9 @@ fn explore_tree_opts(tree: &Tree, inst: &str, sc: &uni::Scratch, shard: usize, n
 	// valid blocks form the histories; reference-invalid blocks are probes at every state
 	let evs: Vec<Ev> = (0..tree.blocks.len()).filter(|i| !is_lift(*i) && tree.valid(*i).is_ok()).map(Ev::B).collect();
 	let mut probes: Vec<Ev> = (0..tree.blocks.len()).filter(|i| tree.valid(*i).is_err()).map(Ev::B).collect();
+	// read-only uses of the state as of every block of the universe (they may fail half-way: a template on an
+	// invalid block, a Merkle proof as of a header below the output's creation); the unspent view must not move
+	probes.extend((0..tree.blocks.len()).filter(|i| !is_lift(*i)).map(Ev::RO));
 	if reopen {
 		probes.push(Ev::Reopen);
 	}
